@@ -268,6 +268,10 @@ def _prepare(op, model, scratch):
         smp = _points(model, rng, 60)
         limits = [(0.05, float(1.2 * smp[:, 0].max())), (0.05, float(1.2 * smp[:, 1].max()))]
         levels = [1e-4, 1e-3, 1e-2]
+        if op.get("as_array"):
+            # the caller's own float array (handed on by reference by numpy.asarray); every other time written from the
+            # highest to the lowest density, which matplotlib rejects - the caller's array is to stay as it is either way
+            levels = np.array(levels[::-1] if op.get("seed", 0) % 2 == 0 else levels, dtype=float)
 
         def fn(a):
             try:
